@@ -11,48 +11,48 @@ NOTE = ("Trusted base: the CPython `ast` parser; the closed-world assumption ove
 
 CLAIMED = {
     'C01': ('multiplier-exactly-once count on every rule-product escape (abstract count 0/1/many); guard truth table of the multiplier; '
-            'zero annihilation through both operand representations by abstract interpretation of Semiring.mul',
+            'zero annihilation through both operand representations by abstract interpretation of Semiring.mul; edgeless externals removed and restored node-by-node (filter and restore comprehension pair each node with its own size)',
             'abstract counting + guard truth tables + abstract interpretation over float classes'),
     'C02': ('budget-must-warn on every kmax-bounded loop (path rule with counter facts); `linear` raises for >=2 in-component edges '
-            '(guards evaluated on abstract counts); per-SCC method rewrites are constant and guarded; dispatch exhaustive with raising fall-through; star(one) by abstract interpretation',
+            '(guards evaluated on abstract counts); per-SCC method rewrites are constant and guarded; dispatch exhaustive with raising fall-through; star(one) by abstract interpretation; component-local state of the per-SCC loops',
             'CFG path rule with interval facts; guard evaluation on abstract values; dispatch-table agreement'),
     'C04': ('totality of partial sequence operations in viterbi\'s call graph under emptiness guards; assignment key sources cover rule.rhs.nodes(); '
-            'producer/consumer enumeration order of back-pointers agrees; pointer width agreement',
+            'producer/consumer enumeration order of back-pointers agrees; pointer width agreement; rule index recorded whenever the running maximum is rebound; component-local state of the per-SCC loop; no negative size literal to PatternedTensor.expand',
             'partial-on-empty dataflow; key-source coverage; iteration-source agreement'),
     'C05': ('method parameter forwarded along factorize_fgg -> factorize_hrg -> factorize_rule -> tree_decomposition; fresh-name protocol '
-            '(complete registry seeds, add-before-reuse); carry-over of factors/domains/start/edges; edge-placement guard truth table',
+            '(complete registry seeds, add-before-reuse); carry-over of factors/domains/start/edges; edge-placement guard truth table; caller-supplied avoid set honoured and seeded with the rule\'s own lhs; primal-graph vertices and cliques; child recursion iff not the parent bag',
             'parameter-forwarding dataflow; fresh-name typestate; guard truth tables'),
     'C06': ('element-wise wrapper homomorphism: the function applied to `default` equals the function applied to `physical` and the torch op of that name on every float class '
-            '(abstract interpretation of the method bodies); identities/defaults of commutative ops; in-place discipline by effect analysis',
+            '(abstract interpretation of the method bodies); identities/defaults of commutative and binary(...) ops; in-place discipline and no-aliasing of self.physical by effect analysis',
             'abstract interpretation over float classes; effect analysis'),
     'C07': ('einsum callbacks agree with the semiring mul on every class pair; operands default_to(zero) before unification and results default to from_int(0); '
-            'mv/mm index strings; pointer trailing dimension agreement over all returns',
+            'mv/mm index strings; pointer trailing dimension agreement over all returns; co-indexing loop visits every (axis, index) position; stride-0 reduction only for sum-free equations',
             'abstract interpretation over float classes; def-use rules'),
     'C08': ('semiring laws on the abstract carrier (exhaustive over float classes, exact at special elements) for the four semirings, '
-            'evaluated from the ASTs of the semiring methods; representation agreement through PatternedTensor wrappers',
+            'evaluated from the ASTs of the semiring methods (incl. star(x) = 1 + x*star(x) on every class); representation agreement through PatternedTensor wrappers',
             'abstract interpretation over a finite partition of the extended reals'),
     'C09': ('solver entry points have no write effect on their arguments (ownership/effect analysis); thunks return fresh tensors; LU result accepted only under both acceptance tests, '
-            'consumed buffers never reused on the fallback path',
+            'consumed buffers never reused on the fallback path; every `.T` in multi_solve/multi_mv applied to a value of rank two (rank inference with reaching definitions)',
             'storage-ownership effect analysis + typestate on the CFG'),
-    'C10': ('every connected component contributes to acb\'s result and the loop never returns early; dispatch table agreement with README/bin; bound helpers copy before eliminating',
+    'C10': ('every connected component contributes to acb\'s result and the loop never returns early; dispatch table agreement with README/bin; bound helpers copy before eliminating; the reported width is updated before every vertex enters the returned order',
             'accumulate-all path rule; dispatch-table agreement'),
     'C11': ('assert / __debug__ purity (no effect, binds nothing read later); option plumbing from bin/sum_product.py and between forward/backward; multiplier at most once on the j_precompute path',
             'effect analysis of asserts; option-forwarding dataflow; abstract counting'),
-    'C13': ('MultiTensor.allclose reaches a comparison for keys in S&O, S-O and O-S in both tolerance branches; shouldStop resolves to a function with that coverage',
+    'C13': ('MultiTensor.allclose reaches a comparison for keys in S&O, S-O and O-S in both tolerance branches; shouldStop resolves to a function with that coverage; False returned only after a failed comparison and never from comparing a shared block with zero; reference operand of isclose',
             'key-region coverage by guard evaluation'),
-    'C14': ('writer/reader key agreement for the JSON formats; discriminator exhaustiveness for Domain/Factor subclasses; JSON-derived indices range-checked on both sides',
+    'C14': ('writer/reader key agreement for the JSON formats; discriminator exhaustiveness for Domain/Factor subclasses; JSON-derived indices range-checked on both sides (also inside helpers); writers use the dense interface; constructor arguments not swapped',
             'writer/reader shape agreement; guard evaluation on abstract index values'),
-    'C15': ('type check precedes every write in replace_edge; host nodes/edges constructed with fresh ids; every replacement node/edge and every child derivation contributes; derive assigns every rhs node',
+    'C15': ('type check precedes every write in replace_edge; host nodes/edges constructed with fresh ids; every replacement node/edge and every child derivation contributes; what enters the host is a newly constructed Node/Edge on every path; derive assigns every rhs node',
             'validate-before-mutate path rule; fresh-id rule; accumulate-all'),
-    'C16': ('validate-before-mutate over the mutators of Graph/HRG/FactorGraph/FGG; registry hits verified; copy completeness and independence; __eq__ field coverage; who-may-write registries; Iterable parameters consumed once',
+    'C16': ('validate-before-mutate over the mutators of Graph/HRG/FactorGraph/FGG; registry hits verified; copy completeness (attributes and element-wise loops) and independence (deep copies of tables with mutable values); __eq__/__ne__ truth tables; Edge typing established in Edge.__init__; who-may-write registries; Iterable parameters consumed once; builtin KeyError sources count as may-raise',
             'CFG path rules (raise-after-write), field-coverage and who-may-write queries over the class model'),
-    'C17': ('conjoin_rules called only under conjoinable(); fresh-name protocol for paired nonterminals; ValueError raised exactly for terminal/terminal conflicts',
+    'C17': ('conjoin_rules called only under conjoinable(); fresh-name protocol for paired nonterminals; ValueError raised exactly for terminal/terminal conflicts; conjoinable() decides by nodes, ordered attachments and ordered externals; paired rule shape',
             'guard dominance; fresh-name typestate; guard truth table'),
-    'C18': ('public queries have no write effect on parameter roots; every tensor in-place sink in their call graphs writes fresh or owned storage; clone results share no storage with self',
+    'C18': ('public queries have no write effect on parameter roots; every tensor in-place sink in their call graphs writes fresh or owned storage; clone results share no storage with self; no mutable default argument that is written or handed out; no module-level mutable written',
             'interprocedural storage-ownership and effect analysis'),
-    'C19': ('nonterminal_graph vertices come from the complete nonterminal registry and an edge is added for every nonterminal rhs edge of every rule; scc starts a visit from every unvisited vertex; consumers iterate the result in order and store every label',
+    'C19': ('nonterminal_graph vertices come from the complete nonterminal registry and an edge is added for every nonterminal rhs edge of every rule; scc starts a visit from every unvisited vertex; consumers iterate the result in order and store every label; Tarjan low-link truth table; stack / on-stack set mirrored; component-local state of the consumers\' loops',
             'vertex/edge-source coverage; iteration-source rules'),
-    'C20': ('key-kind agreement on name-keyed tables (domains/factors/_node_labels/_edge_labels); every store to those tables dominated by the checks the property names, each ending in raise ValueError',
+    'C20': ('key-kind agreement on name-keyed tables (domains/factors/_node_labels/_edge_labels); every store to those tables dominated by the checks the property names, each ending in raise ValueError; equality of domains/factors as truth tables over class and content (no storage layout), base constructors run; RangeDomain.contains on small integers',
             'key-kind inference; guarded-store dominance on the CFG'),
 }
 
